@@ -215,7 +215,13 @@ class Printer:
                 # a newline separates statements only after tokens that do not swallow it; ';' always does.  After a block
                 # statement (return / if / while / func) the grammar allows no blank BEFORE the ';'
                 prev = ss[i - 1][0]
-                out += self.r.choice([";", "; ", ";\n", ";\n  "] + ([" ;  "] if prev not in ("ret", "if", "while", "func", "seq") else []))
+                seps = [";", "; ", ";\n", ";\n  "] + ([" ;  "] if prev not in ("ret", "if", "while", "func", "seq") else [])
+                # a line break alone separates statements too — LF or CR LF — after a statement that ends in a token which does not
+                # swallow the blanks behind it (a number or a name)
+                pv = ss[i - 1]
+                if s[0] in ("asg", "i", "var") and out[-1:].isdigit() and (pv[0] == "i" or (pv[0] == "asg" and pv[2][0] == "i")):
+                    seps += ["\n", "\r\n", " \r\n  "]
+                out += self.r.choice(seps)
             out += t
         return out
 
